@@ -1,5 +1,5 @@
 /-
-  C09 part e — Thompson sampling selection kernel; SuccessiveRejects index invariant.
+  C09 part e — Thompson sampling selection kernel.
 -/
 import AITB.Props.C09a
 
@@ -120,76 +120,5 @@ theorem thompson_unvisited_first (lowest : Bool) (cnt : Nat → Nat) (val : Nat 
         simp only [this, if_false]
         split <;> exact ih _ _ _ (by omega) (by omega)
   exact key n 0 0 _ (Nat.zero_le _) (by omega)
-
-/-! ### SuccessiveRejectsPolicy: the round-robin index always points inside the list of surviving arms -/
-
-def SR.ok (s : SR) : Prop := s.actId < s.avail.length
-
-theorem swapPop_length (l : List Nat) (i : Nat) : (swapPop l i).length = l.length - 1 := by
-  simp [swapPop]
-
-/-- one `stepUpdateQ()` from a state with at least two surviving arms while a rejection is still due, or any state
-    otherwise, keeps the index in range — stated as: if `actId < |avail|` before, and a rejection only happens while
-    `|avail| ≥ 2`, then `actId < |avail|` after. -/
-theorem SR.step_ok (s : SR) (nk : Nat) (mean : Nat → Rat) (h : s.ok) (hphase : s.phase + 1 ≤ s.n → 2 ≤ s.avail.length) :
-    (s.step nk mean).ok := by
-  unfold SR.step SR.ok
-  simp only
-  split
-  · exact h
-  · split
-    · assumption
-    · split
-      · unfold SR.ok at h; show 0 < s.avail.length; omega
-      · rename_i hp
-        show 0 < (swapPop s.avail _).length
-        rw [swapPop_length]
-        have := hphase (by omega); omega
-
-/-- invariant linking the phase counter and the number of surviving arms: `|avail| + min(phase, n) = n + 1` -/
-def SR.inv (s : SR) : Prop := s.ok ∧ 1 ≤ s.phase ∧ s.avail.length + min s.phase s.n = s.n + 1
-
-theorem SR.init_inv (n nk1 : Nat) (hn : 0 < n) : (SR.init n nk1).inv := by
-  unfold SR.inv SR.ok SR.init; simp; omega
-
-theorem SR.step_inv (s : SR) (nk : Nat) (mean : Nat → Rat) (h : s.inv) : (s.step nk mean).inv := by
-  obtain ⟨h1, h2, h3⟩ := h
-  refine ⟨SR.step_ok s nk mean h1 (fun hp => by omega), ?_⟩
-  unfold SR.step
-  simp only
-  split
-  · exact ⟨h2, h3⟩
-  · split
-    · exact ⟨h2, h3⟩
-    · split
-      · rename_i hp
-        refine ⟨by show 1 ≤ s.phase + 1; omega, ?_⟩
-        show s.avail.length + min (s.phase + 1) s.n = s.n + 1
-        have : min (s.phase + 1) s.n = s.n := by omega
-        have : min s.phase s.n = s.n := by omega
-        omega
-      · rename_i hp
-        refine ⟨by show 1 ≤ s.phase + 1; omega, ?_⟩
-        show (swapPop s.avail _).length + min (s.phase + 1) s.n = s.n + 1
-        rw [swapPop_length]
-        have : min (s.phase + 1) s.n = s.phase + 1 := by omega
-        have : min s.phase s.n = s.phase := by omega
-        omega
-
-def srRun : List (Nat × (Nat → Rat)) → SR → SR
-  | [], s => s
-  | (nk, mean) :: t, s => srRun t (s.step nk mean)
-
-/-- **sr_policy_valid**: after ANY number of `stepUpdateQ()` calls (any phase lengths, any reward estimates) the
-    round-robin index designates one of the surviving arms, so `sampleAction` / `getActionProbability` / `getPolicy`
-    (the indicator of that arm) form a point distribution; and exactly `n + 1 - min(phase, n)` arms survive. -/
-theorem sr_policy_valid (n nk1 : Nat) (hn : 0 < n) (h : List (Nat × (Nat → Rat))) :
-    (srRun h (SR.init n nk1)).inv := by
-  have key : ∀ (h : List (Nat × (Nat → Rat))) (s : SR), s.inv → (srRun h s).inv := by
-    intro h
-    induction h with
-    | nil => intro s hs; exact hs
-    | cons o t ih => intro s hs; obtain ⟨nk, mean⟩ := o; exact ih _ (SR.step_inv s nk mean hs)
-  exact key h _ (SR.init_inv n nk1 hn)
 
 end AITB.Pol
